@@ -1159,7 +1159,8 @@ impl Vm {
         #[cfg(feature = "verif_hooks")]
         verif::event(|| format!("throw fiber={:#x}", self.unsafe_fiber as usize));
         self.handling_exception = true;
-        self.active_fiber_mut().error_ip = Some(self.ip);
+        let ip = self.ip;
+        self.active_fiber_mut().record_error_site(ip);
         self.unwind_stack()
     }
 
@@ -1574,7 +1575,8 @@ impl Vm {
             Err(error) => {
                 let exc_object = self.new_root_obj_err_from_error(error);
                 self.poke(0, Value::ObjInstance(exc_object.as_gc()));
-                self.active_fiber_mut().error_ip = Some(self.ip);
+                let ip = self.ip;
+                self.active_fiber_mut().record_error_site(ip);
                 self.unwind_stack()?;
             }
         }
@@ -1860,7 +1862,8 @@ impl Vm {
     fn try_handle_error(&mut self, error: Error) -> Result<(), Error> {
         let obj_err = self.new_root_obj_err_from_error(error);
         self.push(Value::ObjInstance(obj_err.as_gc()));
-        self.active_fiber_mut().error_ip = Some(self.ip);
+        let ip = self.ip;
+        self.active_fiber_mut().record_error_site(ip);
         self.unwind_stack()
     }
 
